@@ -107,6 +107,6 @@ def admissible(op, args, x, y):
         return n >= 2 and l < r and j - i + 1 >= 2
     if op == "truncate_by_index":
         start, stop = args
-        stop_ = n if stop is None else stop
-        return 0 <= start and stop_ <= n and stop_ - start >= 2
+        stop_ = n if stop is None else (stop if stop >= 0 else n + stop)      # Python slice semantics for a negative stop
+        return 0 <= start and 0 <= stop_ <= n and stop_ - start >= 2
     return True
